@@ -64,6 +64,12 @@ func (o *Out) Put(v interface{}) {
 	o.mu.Unlock()
 }
 
+func (o *Out) Flush() {
+	o.mu.Lock()
+	o.w.Flush()
+	o.mu.Unlock()
+}
+
 func (o *Out) Close() {
 	o.mu.Lock()
 	o.w.Flush()
